@@ -29,6 +29,7 @@ func main() {
 	list := flag.Bool("list", false, "list every obligation")
 	noEvidence := flag.Bool("no-evidence", false, "do not write evidence/report files (used by the self-test)")
 	describe := flag.Bool("describe", false, "print the rule catalogue (markdown) and exit")
+	dumpLay := flag.Bool("dump-layout", false, "print layout_pinned.go (struct layouts of the loaded tree) and exit")
 	flag.Parse()
 	for _, f := range lateInits {
 		f()
@@ -95,6 +96,10 @@ func main() {
 	}
 
 	c, err := loadRepo(*repo, nil)
+	if *dumpLay && err == nil {
+		fmt.Print(dumpLayout(c))
+		return
+	}
 	exit := 0
 	if err != nil {
 		// Cannot analyse: never "held".
